@@ -77,7 +77,16 @@ def counter_bait(rw, target=False):
 DEGENERATE = ["POP", "POP POP", "POP POP POP", "SWAP1 POP", "DUP1 POP", "POP PUSH 1 POP", "SWAP1 SWAP1", "PUSH 0 POP", "POP POP PUSH [tag] 3 JUMP"]
 
 
+# history members that fire rules / fold constants and then take an early exit of the front-end (the block turns out to be the
+# identity, or its analysis raises after a rule has fired): whatever the rules booked is not consumed by a specification
+LEFTOVER = ["PUSH 1 PUSH 2 ADD POP", "PUSH 3 PUSH 4 MUL POP", "DUP1 PUSH 0 ADD POP", "PUSH 2 PUSH 3 ADD PUSH 1 MUL POP", "PUSH 1 PUSH 1 SUB POP",
+            "PUSH 7 PUSH 0 MUL POP", "DUP1 DUP1 XOR POP", "PUSH 1 PUSH 2 ADD PUSH 20 PUSH 0 PUSH 40 MCOPY", "DUP1 PUSH 0 OR SWAP1 POP",
+            "PUSH 5 PUSH 5 EQ POP", "PUSH ff PUSH 1 SHL POP"]
+
+
 def gen_text(rw, profile=None, length=None, pseudo=True, target=False):
+    if not target and rw.random() < 0.15:
+        return rw.choice(LEFTOVER)
     if target and rw.random() < 0.15:
         # degenerate targets: blocks with (almost) nothing to analyse take the early exits of the front-end, where whatever
         # an earlier block left behind is not overwritten
